@@ -87,8 +87,10 @@ def stage(ctx, scs, ress, limit=70):
     for sc, res in zip(scs, ress):
         if sc.get("type") != "sig" or sc.get("py") == "np" or "harness_error" in res:
             continue
-        if any(v.get("kind", "def") not in ("def", "nested", "lambda") for v in sc["versions"].values()):
-            continue      # bound methods hash `self` as an object: outside M3's tree universe
+        if any(v.get("kind", "def") not in ("def", "nested", "lambda", "async") for v in sc["versions"].values()):
+            continue
+        if any(e[0] == "recache" or (e[0] in ("call", "shelve", "check") and e[2].get("via")) for e in sc["events"]):
+            continue      # the ignore list changes along the history: the term is built from sc["ignore"]      # bound methods hash `self` as an object: outside M3's tree universe
         for ev, r in zip(sc["events"], res["events"]):
             if ev[0] != "call" or "args_id" not in r:
                 continue
